@@ -359,10 +359,12 @@ def gen_program(seed, size=12, features=None):
             if k < 0:
                 a, b = b, a
             out_a += [{"k": "let", "n": lo, "dty": "i32", "e": lit_ast(i32, a)}, {"k": "let", "n": hi, "dty": "i32", "e": lit_ast(i32, b)}]
-            if r.random() < 0.4:
-                t8 = BYNAME[r.choice(["i8", "i16", "i64"])]
+            if r.random() < 0.5:
+                # the cast may change the sign of the value: 4294967295 as i32 is -1, -4294967294 as i32 is 2
+                t8, kv = r.choice([(BYNAME["i8"], k), (BYNAME["i16"], k), (BYNAME["i64"], k),
+                                   (BYNAME["i64"], k + (1 << 32)), (BYNAME["i64"], k - (1 << 32)), (BYNAME["u32"], k % (1 << 32))])
                 src = g.fresh("w")
-                out_a.append({"k": "let", "n": src, "dty": t8[0], "e": lit_ast(t8, k)})
+                out_a.append({"k": "let", "n": src, "dty": t8[0], "e": lit_ast(t8, kv)})
                 sc_.vars[src] = ("int", t8)
                 step = {"k": "cast", "e": V(src), "ty": tyj(i32)}
             else:
